@@ -98,3 +98,5 @@ func short(s string, n int) string {
 func protodescProto(fd protoreflect.FileDescriptor) *descriptorpb.FileDescriptorProto {
 	return protoutil.ProtoFromFileDescriptor(fd)
 }
+
+func protoName(s string) protoreflect.Name { return protoreflect.Name(s) }
